@@ -43,7 +43,8 @@ func (f featureCfg) String() string {
 
 func faultConfig(strategy string, bes []*vh.Backend, f featureCfg) *config.Config {
 	cfg := baseConfig(strategy, bes)
-	cfg.Server.Timeouts = config.TimeoutConfig{Read: 5, Write: 5, Idle: 10, BackendDial: 1, BackendRead: 2, BackendIdle: 5, Shutdown: 5}
+	// all different, so that a timeout wired to the wrong setting shows
+	cfg.Server.Timeouts = config.TimeoutConfig{Read: 5, Write: 6, Idle: 10, BackendDial: 1, BackendRead: 2, BackendIdle: 9, Shutdown: 4}
 	if f.Breaker {
 		cfg.CircuitBreaker = config.CircuitBreakerConfig{Enabled: true, FailureThreshold: 2, SuccessThreshold: 1, IntervalSeconds: 20, TimeoutSeconds: 30}
 	}
